@@ -2,10 +2,15 @@
 import struct
 
 
-def name_table(strings, first_is_label=False):
-    """strings: dict name_id -> python str; Windows Unicode BMP (3,1) English (0x409) records, UTF-16BE"""
+def name_table(strings, first_is_label=False, mac_first=False):
+    """strings: dict name_id -> python str; Windows Unicode BMP (3,1) English (0x409) records, UTF-16BE; with mac_first the Windows
+    block is preceded by Macintosh Roman records (as sorted name tables have them) and nothing else"""
     recs, data = [], b''
-    if not first_is_label:
+    if mac_first:
+        for nid in sorted(strings)[:2]:
+            b = b'Mac'
+            recs.append((1, 0, 0, nid, len(b), len(data))); data += b
+    elif not first_is_label:
         b0 = 'copyright'.encode('utf-16-be')
         recs.append((3, 1, 0x409, 0, len(b0), 0)); data += b0
     for nid in sorted(strings):
